@@ -99,10 +99,10 @@ var c13Cfg = &errflowCfg{
 	sinkCalls: map[string]bool{
 		"(*z/web.cacheEntry).fail": true,
 		// struct fields whose owner is then sent on a channel / stream
-		"field z.remoteResult.err":              true,
-		"field z/planner.sqResult.err":          true,
-		"field z/rpc.RemoteQueryResult.Error":   true,
-		"field z.iteration.err":                 true,
+		"field z.remoteResult.err":            true,
+		"field z/planner.sqResult.err":        true,
+		"field z/rpc.RemoteQueryResult.Error": true,
+		"field z.iteration.err":               true,
 	},
 	sinkDynNames: map[string]bool{},
 	swallowSentinels: map[string]bool{
